@@ -29,7 +29,7 @@ def gen_chain(rng, length):
         own = []
         for k in rng.sample(KEYS, rng.randint(0, 3)):
             vid[0] += 1
-            kind = rng.choice(["int", "int", "str", "nd", "none", "series", "df"])
+            kind = rng.choice(["int", "int", "str", "nd", "none", "series", "df", "part"])
             if kind == "int":
                 desc = {"k": "int", "v": vid[0]}
             elif kind == "str":
@@ -40,6 +40,9 @@ def gen_chain(rng, length):
                 desc = {"k": "series", "v": [vid[0], 0], "dtype": "int64"}
             elif kind == "df":
                 desc = {"k": "df", "v": [["c", [vid[0], 0]], ["d", ["x", "y"]]]}
+            elif kind == "part":
+                # a member that is itself a partition (read back, its own members are loaded one by one)
+                desc = {"k": "part", "v": [["inner", {"k": "int", "v": vid[0]}], ["other", {"k": "str", "v": "v0"}]]}
             else:
                 desc = {"k": "none"}
                 vid[0] -= 1
@@ -56,6 +59,8 @@ def value_id(v):
         return int(v[1:])
     if isinstance(v, np.ndarray):
         return int(v[0])
+    if hasattr(v, "list_keys") and hasattr(v, "get"):
+        return int(v.get("inner"))
     import pandas as pd
     if isinstance(v, pd.Series):
         return int(v.iloc[0])
